@@ -37,6 +37,8 @@ def lookup(path, info):
         rs, rd = solver.INT_RANGES[m.group(1)], solver.INT_RANGES[m.group(2)]
         if rs[0] >= rd[0] and rs[1] <= rd[1]:
             return a_from_id          # lossless integer widening
+    if re.match(r"^<(std|core|alloc)::[^ ]+( as|<.*> as) std::clone::Clone>::clone$", path) or re.match(r"^core::clone::impls::<impl std::clone::Clone for [\w&]+>::clone$", path):
+        return a_clone_value      # Clone of a std value type yields an equal value
     m = re.match(r".*<impl std::convert::TryFrom<(\w+)> for (\w+)>::try_from$", path)
     if m and m.group(1) in solver.INT_RANGES and m.group(2) in solver.INT_RANGES:
         dst = m.group(2)
@@ -250,10 +252,57 @@ def a_index_mut(ev, st, info, args):
     if r is None:
         return []
     if r[0] == 'range':
-        return [(st, ('ref', r0[1], r0[2] + (('r', r[1], r[2]),)))]
+        return [(st, sub_ref(r0, ('r', r[1], r[2])))]
     if r[0] == 'elem':
-        return [(st, ('ref', r0[1], r0[2] + (('i', r[1]),)))]
+        return [(st, sub_ref(r0, ('i', r[1])))]
     return [(st, ('opaque', 'index_mut with unknown range type'))]
+
+
+def sub_ref(r0, step):
+    """reference to a sub-range / element of what r0 refers to; a range of a range is one range of the underlying sequence"""
+    path = tuple(r0[2])
+    if path and path[-1][0] == 'r':
+        lo0 = path[-1][1]
+        if step[0] == 'r':
+            return ('ref', r0[1], path[:-1] + (('r', T.add(lo0, step[1]), T.add(lo0, step[2])),))
+        if step[0] == 'i':
+            return ('ref', r0[1], path[:-1] + (('i', T.add(lo0, step[1])),))
+    return ('ref', r0[1], path + (step,))
+
+
+@ax('core::slice::<impl [T]>::reverse', note='reverse() reverses the elements in place; total')
+def a_reverse(ev, st, info, args):
+    r0 = args[0]
+    if r0[0] != 'ref':
+        return [(st, ('opaque', 'reverse on untracked storage'))]
+    seq = content(ev.deref(r0, st))
+    out = None
+    if seq[0] in ('tole', 'tobe'):
+        out = T.mk_tobytes('tobe' if seq[0] == 'tole' else 'tole', seq[1], seq[2])
+    elif seq[0] == 'bytes':
+        out = ('bytes', seq[1][::-1])
+    elif seq[0] == 'arr':
+        out = ('arr', tuple(reversed(seq[1])))
+    else:
+        n = T.mk_len(seq)
+        if n[0] == 'int' and n[1] <= 64:
+            out = T.canon_seq(('arr', tuple(T.mk_at(seq, I(n[1] - 1 - k)) for k in range(n[1]))))
+    if out is None:
+        out = ('call', 'reversed', (seq,))
+    write_ref(ev, st, info, r0, out)
+    return [(st, T.UNIT)]
+
+
+@ax('core::slice::<impl [T]>::split_at_mut', note='split_at_mut(mid) panics unless mid <= len; the two halves are disjoint views of the same storage')
+def a_split_at_mut(ev, st, info, args):
+    r0 = args[0]
+    if r0[0] != 'ref':
+        return [(st, ('opaque', 'split_at_mut on untracked storage'))]
+    seq = content(ev.deref(r0, st))
+    n = T.mk_len(seq)
+    if not oblige(st, info, 'slice_end', T.cmp('Le', args[1], n), 'mid <= len'):
+        return []
+    return [(st, ('tuple', (sub_ref(r0, ('r', I(0), args[1])), sub_ref(r0, ('r', args[1], n)))))]
 
 
 @ax('core::slice::<impl [T]>::get', 'core::str::<impl str>::get',
@@ -489,6 +538,11 @@ def a_cow_deref(ev, st, info, args):
 @ax('std::slice::<impl [T]>::to_vec', '<T as std::string::ToString>::to_string', 'std::borrow::ToOwned::to_owned',
     '<str as std::borrow::ToOwned>::to_owned', '<[T] as std::borrow::ToOwned>::to_owned', 'std::borrow::Cow::<B>::into_owned',
     "std::borrow::Cow::<'_, B>::into_owned", '<std::string::String as std::convert::From<&str>>::from',
+    'std::str::<impl std::borrow::ToOwned for str>::to_owned', 'std::slice::<impl std::borrow::ToOwned for [T]>::to_owned',
+    'std::string::<impl std::convert::From<&str> for std::string::String>::from', '<std::string::String as std::clone::Clone>::clone',
+    '<std::vec::Vec<T, A> as std::clone::Clone>::clone', '<std::vec::Vec<T> as std::clone::Clone>::clone', 'std::string::String::into_bytes',
+    'core::str::<impl str>::to_string', 'std::string::<impl std::string::ToString for str>::to_string',
+    '<std::vec::Vec<T> as std::convert::From<&[T]>>::from', 'std::vec::<impl std::convert::From<&[T]> for std::vec::Vec<T>>::from',
     note='to_vec / to_string / to_owned copy the contents unchanged; total')
 def a_to_owned(ev, st, info, args):
     return [(st, content(args[0]))]
@@ -772,6 +826,8 @@ def a_any(ev, st, info, args):
 def generic_iter_next(ev, st, info, args):
     r = args[0]
     it = ev.deref(r, st)
+    if is_iter(it):
+        return a_seq_next(ev, st, info, args)       # a caller-supplied iterator that is known on this path (e.g. iter::once(x))
     outs = []
     for s2, val in fork_bool(st, ('call', 'iter_has_next', (it,))):
         if val:
@@ -810,6 +866,27 @@ def as_iter(ev, st, v, ty=None):
         t = tys.strip_refs(ty)
         if t[0] in ('slice', 'array'):
             return slice_iter(v)        # a symbolic sequence (e.g. the octets of an address) of slice / array type
+    return None
+
+
+def iter_bound(it):
+    """constant upper bound on the number of items an iterator value can still yield, or None"""
+    k = it[1]
+    if k == '$ArrIter':
+        return len(T.adt_field(it, 'elems')[1])
+    if k == '$SliceIter':
+        n = T.mk_len(T.adt_field(it, 'seq'))
+        return n[1] if n[0] == 'int' and n[1] <= 256 else None
+    if k == '$IterMut':
+        return T.adt_field(it, 'n')[1]
+    if k == '$Split':
+        lim = T.adt_field(it, 'src')[2][1]
+        return lim[1] if lim[0] == 'int' else None
+    if k == '$Zip':
+        a, b = iter_bound(T.adt_field(it, 'a')), iter_bound(T.adt_field(it, 'b'))
+        return min(x for x in (a, b) if x is not None) if (a is not None or b is not None) else None
+    if k in ('$Enumerate', '$Copied'):
+        return iter_bound(T.adt_field(it, 'it'))
     return None
 
 
@@ -882,7 +959,12 @@ def iter_step(ev, st, it):
     raise KeyError(k)
 
 
-@ax('<std::array::IntoIter<T, N> as std::iter::Iterator>::next', '<std::iter::Zip<A, B> as std::iter::Iterator>::next',
+@ax('std::iter::once', note='once(x) yields x once')
+def a_once(ev, st, info, args):
+    return [(st, T.mk_adt('$ArrIter', 'I', [('elems', ('arr', (args[0],))), ('pos', I(0))]))]
+
+
+@ax('<std::array::IntoIter<T, N> as std::iter::Iterator>::next', '<std::iter::Zip<A, B> as std::iter::Iterator>::next', '<std::iter::Once<T> as std::iter::Iterator>::next',
     "<std::slice::Iter<'a, T> as std::iter::Iterator>::next", "<std::slice::IterMut<'a, T> as std::iter::Iterator>::next",
     '<std::slice::Iter<T> as std::iter::Iterator>::next', '<std::slice::IterMut<T> as std::iter::Iterator>::next',
     '<std::iter::Enumerate<I> as std::iter::Iterator>::next', '<std::iter::Copied<I> as std::iter::Iterator>::next',
@@ -1000,7 +1082,22 @@ def num_method(ty, name):
         def f(ev, st, info, args):
             return [(st, T.mk_tobytes('tobe' if name == 'to_be_bytes' else 'tole', width, args[0]))]
         return f
-    if name in ('to_ne_bytes', 'from_ne_bytes'):
+    if name in ('to_be', 'to_le'):
+        def f(ev, st, info, args):
+            v = ('call', name, (args[0],))      # an integer whose native representation is the big / little-endian encoding of the argument
+            T.TYPES[v] = ty
+            T.NUMERIC[v] = True
+            return [(st, v)]
+        return f
+    if name == 'to_ne_bytes':
+        def f(ev, st, info, args):
+            a = args[0]
+            if a[0] == 'call' and a[1] in ('to_be', 'to_le'):
+                # x.to_be().to_ne_bytes() is x.to_be_bytes() on every target
+                return [(st, T.mk_tobytes('tobe' if a[1] == 'to_be' else 'tole', width, a[2][0]))]
+            return [(st, ('opaque', 'to_ne_bytes of a value in native order (platform dependent)'))]
+        return f
+    if name == 'from_ne_bytes':
         return None    # platform dependent: unknown on purpose
     if name in ('checked_add', 'checked_sub', 'checked_mul'):
         def f(ev, st, info, args):
@@ -1015,7 +1112,12 @@ def num_method(ty, name):
             v = T.add(args[0], args[1]) if name.endswith('add') else T.sub(args[0], args[1])
             outs = []
             for s2, val in fork_bool(st, ev.int_range_cond(v, ty)):
-                outs.append((s2, v if val else ('call', name, (args[0], args[1]))))
+                if val:
+                    outs.append((s2, v))
+                elif r[0] == 0:
+                    outs.append((s2, I(r[1] if name.endswith('add') else 0)))      # unsigned: saturates at the only reachable bound
+                else:
+                    outs.append((s2, ('call', name, (args[0], args[1]))))
             return outs
         return f
     if name in ('wrapping_add', 'wrapping_sub', 'wrapping_mul'):
@@ -1245,6 +1347,38 @@ def a_is_some_and(ev, st, info, args):
     return outs
 
 
+def a_clone_value(ev, st, info, args):
+    v = args[0]
+    if v[0] == 'ref':
+        v = ev.deref(v, st)
+    return [(st, v)]
+
+
+TOTAL_NOTE['<std::... as std::clone::Clone>::clone'] = 'clone() of a std value type (Cow, String, Vec, addresses, integers) is an equal value; total'
+
+
+@ax('std::result::Result::<T, E>::is_err_and', note='is_err_and(f): Err(e) -> f(e), Ok -> false; total if f is')
+def a_is_err_and(ev, st, info, args):
+    outs = []
+    for s2, var, get in fork_enum(st, args[0], 'Result', ['Ok', 'Err']):
+        if var == 'Ok':
+            outs.append((s2, T.FALSE))
+        else:
+            outs.extend(_apply1(ev, s2, info, args[1], get('0')))
+    return outs
+
+
+@ax('std::result::Result::<T, E>::is_ok_and', note='is_ok_and(f): Ok(v) -> f(v), Err -> false; total if f is')
+def a_is_ok_and(ev, st, info, args):
+    outs = []
+    for s2, var, get in fork_enum(st, args[0], 'Result', ['Ok', 'Err']):
+        if var == 'Err':
+            outs.append((s2, T.FALSE))
+        else:
+            outs.extend(_apply1(ev, s2, info, args[1], get('0')))
+    return outs
+
+
 @ax('std::option::Option::<T>::is_none_or', note='is_none_or(f); total if f is')
 def a_is_none_or(ev, st, info, args):
     outs = []
@@ -1370,6 +1504,25 @@ def a_try_for_each(ev, st, info, args):
         it = ev.deref(it, st)
     if f[0] != 'closure':
         return [(st, ('opaque', 'try_for_each with a non-closure function'))]
+    if is_iter(it) and iter_bound(it) is not None:
+        # an iterator over a sequence of known constant length: applied item by item (straight-line), stopping at the first Err
+        outs = []
+        work = [(st, it, 0)]
+        while work:
+            s1, cur, n = work.pop()
+            for s2, nxt, item in iter_step(ev, s1, cur):
+                if item is None:
+                    outs.append((s2, ok(T.UNIT)))
+                    continue
+                for s3, r in ev.apply_closure(f, [item], s2, info['fr'], info['site']):
+                    for s4, var, get in fork_enum(s3, r, 'Result', ['Ok', 'Err']):
+                        if var == 'Ok':
+                            work.append((s4, nxt, n + 1))
+                        else:
+                            outs.append((s4, err(get('0'))))
+        if args[0][0] == 'ref':
+            pass        # the iterator is consumed; its final state is not observable through try_for_each's by-value self
+        return outs
     caps = [c for c in f[2] if c[0] == 'ref']
     site = info['site']['span']
     iloc = ('X', 'iter', site)
@@ -1675,6 +1828,25 @@ def a_ipv4_octets(ev, st, info, args):
     o = ('call', 'octets4', (v,))
     T.KNOWN_LEN[o] = 4
     return [(st, o)]
+
+
+@ax('core::net::ip_addr::<impl std::convert::From<std::net::Ipv4Addr> for u32>::from', 'std::net::Ipv4Addr::to_bits',
+    'core::net::ip_addr::<impl std::convert::From<std::net::Ipv6Addr> for u128>::from', 'std::net::Ipv6Addr::to_bits',
+    note='u32::from(Ipv4Addr) / u128::from(Ipv6Addr) / to_bits: the big-endian integer of the octets; total')
+def a_ip_to_bits(ev, st, info, args):
+    v6 = 'Ipv6' in (info['c'].get('rpath') or info['c']['path'])
+    outs = (a_ipv6_octets if v6 else a_ipv4_octets)(ev, st, info, args)
+    o = outs[0][1]
+    n = 16 if v6 else 4
+    return [(st, T.mk_be(tuple(T.mk_at(o, I(k)) for k in range(n))))]
+
+
+@ax('std::result::Result::<T, E>::and', note='and(res): Ok(_) -> res, Err(e) -> Err(e); total')
+def a_res_and(ev, st, info, args):
+    outs = []
+    for s2, var, get in fork_enum(st, args[0], 'Result', ['Ok', 'Err']):
+        outs.append((s2, args[1] if var == 'Ok' else err(get('0'))))
+    return outs
 
 
 @ax('std::net::Ipv6Addr::octets', note='octets() inverts from')
